@@ -11,6 +11,12 @@ def run(run):
                 'every permutation of the node list; non-trivial = graph with at least one edge; distinct by graph')
     run.assumptions = ['labels start at their defaults (analysis of an already analysed graph is not explored)',
                        'TTC kinds: none, Enabled / Disabled, one named distribution; arithmetic TTCs not explored']
+    # (A) design level: the algorithm as a step machine reaches the greatest fixed point in every order
+    run.mc('AprioriAlgo', 'AprioriAlgo.cfg', env={'VERIF_N': 2}, timeout=600, coverage=False,
+           name='AprioriAlgo: every 2-node graph (5 kinds) x every node order x every propagation schedule')
+    if not quick:
+        run.mc('AprioriAlgo', 'AprioriAlgo.cfg', env={'VERIF_N': 3, 'VERIF_KINDS': 'oad'}, timeout=3000, coverage=False,
+               name='AprioriAlgo: every 3-node graph over {or, and, defense} x every node order x every schedule')
     A = 'harness.replay_apriori'
     run.gen_replay('Gen_Apriori', 'Gen_Apriori.cfg', A, {'seed': run.seed}, env={'VERIF_N': 2}, name='all 2-node graphs, 5 kinds')
     run.gen_replay('Gen_Apriori', 'Gen_Apriori.cfg', A, {'seed': run.seed},
